@@ -11,35 +11,87 @@
 import PacketVerif.Gen.Facts
 namespace PV.Props.C10Tie
 
-/-- reviewed alias sites, with the reason each one is not a retention of the packet buffer -/
+/-- reviewed alias sites, with the reason each one is not a retention of the packet buffer.  An entry is
+    `function:target=stored expression` (` xN` when the function has N such stores): composite literals of EVERY type are
+    walked field by field (no exempt types), a store of a struct value that carries byte slices (`packet.Addr`, …) counts
+    like a store of its slices, and the stored expression is part of the key — so `Host{Addr: Addr{MAC: addr.MAC}}` in place
+    of `macEntry.MAC`, `lease.Addr = packet.Addr{MAC: mac}` in place of `CopyMAC(mac)`, or a second `opts[k] = clientID` each
+    change this list. -/
 def reviewed : List String := [
-  "dhcp4_spoofer.CopyOptions:map[opts]",                      -- copies the map, values alias the *source map* built by the server
-  "dhcp4_spoofer.appendRouteOptions:map[h.options]",          -- values are freshly built option byte strings of the subnet
-  "dhcp4_spoofer.forceDecline:map[opts]",                     -- transient option map of an outgoing client message
-  "dhcp4_spoofer.forceRelease:map[opts]",                     -- idem
-  "dhcp4_spoofer.nakPacket:map[options]",                     -- transient option map encoded before the handler returns
-  "packet.Addrs:append(addr)",                                -- ICMP4Redirect.Addrs(): a view getter, aliasing by design (C16)
-  "packet.DecodeQuestion:Question.Name",                      -- returned to the caller, converted with string(...) before being stored
-  "packet.GetIP4DefaultGatewayAddr:Addr.MAC",                 -- OS probing, no packet involved
-  "packet.ICMP6SendRouterAdvertisement:LinkLayerAddress{MAC}",-- transient option of an outgoing message (NIC MAC)
-  "packet.ICMP6SendRouterAdvertisement:PrefixInformation{Prefix}", -- idem (router table value)
-  "packet.ICMP6SendRouterSolicitation:LinkLayerAddress{MAC}", -- idem
-  "packet.LinuxConfigureInterface:IPNet{Mask}",               -- OS configuration, no packet involved
-  "packet.Parse:Addr.MAC",                                    -- the returned Frame is a zero-copy view by design (C16)
-  "packet.Parse:Frame.ether",                                 -- idem
-  "packet.ParseOptions:map[options]",                         -- documented: returned option values alias the packet; consumers copy
-  "packet.marshal:RawOption{Value}",                          -- outgoing message
-  "packet.newParseOptions:NewOptions.FirstPrefix",            -- transient parse result; icmp6radv copies what it keeps
-  "packet.unmarshal:PrefixInformation.Prefix"]                -- idem
+  "arp_spoofer.AnnounceTo:Addr{MAC}=h.session.NICInfo.HostAddr4.MAC",                    -- NIC / OS data, no packet buffer involved
+  "arp_spoofer.Probe:Addr{MAC}=h.session.NICInfo.HostAddr4.MAC",                         -- NIC / OS data, no packet buffer involved
+  "arp_spoofer.ProcessPacket:Addr{MAC}=arpFrame.SrcMAC() x2",                            -- transient destination address of a frame that is written before the call returns
+  "arp_spoofer.ProcessPacket:Addr{MAC}=h.session.NICInfo.HostAddr4.MAC x2",              -- NIC / OS data, no packet buffer involved
+  "arp_spoofer.RequestRaw:Addr{MAC}=dst",                                                -- transient destination address of a frame that is written before the call returns
+  "arp_spoofer.StartHunt:map[h.huntList]=addr",                                          -- API argument of StartHunt: callers pass Host.Addr, whose MAC is the table copy; never a frame address
+  "arp_spoofer.WhoIs:Addr{MAC}=host.MACEntry.MAC",                                       -- the table's private copy of the MAC (transient address of an outgoing frame)
+  "arp_spoofer.reply:Addr{MAC}=dst",                                                     -- transient destination address of a frame that is written before the call returns
+  "dhcp4_spoofer.CopyOptions:map[opts]=v",                                               -- copies the map, values alias the *source map* built by the server
+  "dhcp4_spoofer.ProcessPacket:Addr{MAC}=frame.SrcAddr.MAC",                             -- transient destination address of a frame that is written before the call returns
+  "dhcp4_spoofer.ProcessPacket:Addr{MAC}=h.session.NICInfo.HostAddr4.MAC",               -- NIC / OS data, no packet buffer involved
+  "dhcp4_spoofer.SendDiscoverPacket:Addr{MAC}=h.session.NICInfo.HostAddr4.MAC",          -- NIC / OS data, no packet buffer involved
+  "dhcp4_spoofer.SendDiscoverPacket:Addr{MAC}=h.session.NICInfo.RouterAddr4.MAC",        -- NIC / OS data, no packet buffer involved
+  "dhcp4_spoofer.appendRouteOptions:map[h.options]=buf",                                 -- freshly built option bytes of the subnet
+  "dhcp4_spoofer.forceDecline:map[opts]=clientID",                                       -- clientID was re-assigned from dupBytes two lines above; transient option map of an outgoing message
+  "dhcp4_spoofer.forceRelease:map[opts]=clientID",                                       -- idem
+  "dhcp4_spoofer.nakPacket:map[options]=[]byte(serverID)",                               -- transient option map encoded before the handler returns
+  "dhcp4_spoofer.nakPacket:map[options]=clientID",                                       -- idem (aliases the request; encoded into the same buffer before return, C03 in-place theorem)
+  "dhcp4_spoofer.sendDeclineReleasePacket:Addr{MAC}=h.session.NICInfo.HostAddr4.MAC",    -- NIC / OS data, no packet buffer involved
+  "dhcp4_spoofer.sendDeclineReleasePacket:Addr{MAC}=h.session.NICInfo.RouterAddr4.MAC",  -- NIC / OS data, no packet buffer involved
+  "icmp_spoofer.PingAll:Addr{MAC}=h.session.NICInfo.HostAddr4.MAC",                      -- NIC / OS data, no packet buffer involved
+  "icmp_spoofer.ProcessPacket:Addr{MAC}=h.session.NICInfo.HostAddr4.MAC",                -- NIC / OS data, no packet buffer involved
+  "icmp_spoofer.ProcessPacket:Addr{MAC}=pkt.Ether().Dst()",                              -- transient destination address of a frame that is written before the call returns
+  "icmp_spoofer.ProcessPacket:Router.Options=options",                                   -- RETENTION of the parse result: every byte slice in NewOptions is copied by the option unmarshal functions (CopyBytes / CopyIP / CopyMAC / fresh Mask), see the unmarshal entries; harness/c10 drives RAs with every option kind
+  "icmp_spoofer.spoofLoop:Addr{MAC}=h.session.NICInfo.HostAddr4.MAC x2",                 -- NIC / OS data, no packet buffer involved
+  "icmp_spoofer.spoofLoop:Addr{MAC}=hostAddr.MAC",                                       -- the table's private copy of the MAC (transient address of an outgoing frame)
+  "packet.Addrs:append(addr)=net.IP(p[:]) x2",                                           -- ICMP4Redirect.Addrs(): a view getter, aliasing by design (C16)
+  "packet.DHCPv4Update:Addr{MAC}=mac",                                                   -- lookup key handed to findOrCreateHostWithLock, which copies
+  "packet.DecodeQuestion:Question.Name=name",                                            -- returned to the caller, converted with string(...) before being stored
+  "packet.FindByMAC:Addr{MAC}=v.MACEntry.MAC",                                           -- the table's private copy of the MAC (transient address of an outgoing frame)
+  "packet.GetIP4DefaultGatewayAddr:Addr.MAC=v.MAC",                                      -- NIC / OS data, no packet buffer involved
+  "packet.GetNICInfo:Addr{MAC}=defaultGW.MAC",                                           -- NIC / OS data, no packet buffer involved
+  "packet.GetNICInfo:Addr{MAC}=info.IFI.HardwareAddr",                                   -- NIC / OS data, no packet buffer involved
+  "packet.ICMP6SendRouterAdvertisement:Addr{MAC}=h.NICInfo.HostAddr4.MAC",               -- NIC / OS data, no packet buffer involved
+  "packet.ICMP6SendRouterAdvertisement:LinkLayerAddress{MAC}=h.NICInfo.HostAddr4.MAC",   -- NIC / OS data, no packet buffer involved
+  "packet.ICMP6SendRouterAdvertisement:PrefixInformation{Prefix}=prefix.Prefix",         -- transient option of an outgoing message (router table value)
+  "packet.ICMP6SendRouterAdvertisement:RecursiveDNSServer{Servers}=rdnss.Servers",       -- idem
+  "packet.ICMP6SendRouterSolicitation:Addr{MAC}=h.NICInfo.HostAddr4.MAC",                -- NIC / OS data, no packet buffer involved
+  "packet.ICMP6SendRouterSolicitation:LinkLayerAddress{MAC}=h.NICInfo.HostAddr4.MAC",    -- NIC / OS data, no packet buffer involved
+  "packet.LinuxConfigureInterface:IPNet{Mask}=net.CIDRMask(gw.Bits(),?)",                -- NIC / OS data, no packet buffer involved
+  "packet.LinuxConfigureInterface:IPNet{Mask}=net.CIDRMask(hostIP.Bits(),?)",            -- NIC / OS data, no packet buffer involved
+  "packet.LinuxConfigureInterface:IPNet{Mask}=net.CIDRMask(newIP.Bits(),?)",             -- NIC / OS data, no packet buffer involved
+  "packet.LoadLinuxARPTable:Addr{MAC}=mac",                                              -- NIC / OS data, no packet buffer involved
+  "packet.LocalAddr:Addr{MAC}=p.ifi.HardwareAddr",                                       -- NIC / OS data, no packet buffer involved
+  "packet.Parse:Addr.MAC=frame.ether.Dst()",                                             -- the returned Frame is a zero-copy view by design (C16)
+  "packet.Parse:Addr.MAC=frame.ether.Src()",                                             -- idem
+  "packet.Parse:Addr{MAC}=net.HardwareAddr(arp[:])",                                     -- lookup key handed to findOrCreateHostWithLock, which copies (MACTable.findOrCreate: CopyMAC)
+  "packet.Parse:Frame.ether=p",                                                          -- zero-copy view by design (C16)
+  "packet.ParseOptions:map[options]=opts[:]",                                            -- documented: returned option values alias the packet; consumers copy
+  "packet.ReadFrom:Addr{MAC}=mac",                                                       -- NIC / OS data, no packet buffer involved
+  "packet.ValidateDefaultRouter:Addr{MAC}=h.NICInfo.HostAddr4.MAC x2",                   -- NIC / OS data, no packet buffer involved
+  "packet.arpRequest:Addr{MAC}=dst",                                                     -- transient destination address of a frame that is written before the call returns
+  "packet.findOrCreateHostWithLock:Addr{MAC}=macEntry.MAC",                              -- THE main retention of a MAC: the MAC entry's private copy (MACTable.findOrCreate: CopyMAC), not the caller's addr.MAC
+  "packet.marshal:RawOption{Value}=lla.MAC",                                             -- outgoing message
+  "packet.marshal:RawOption{Value}=value",                                               -- outgoing message
+  "packet.newParseOptions:NewOptions.FirstPrefix=options.Prefixes[].Prefix",             -- value already copied by PrefixInformation.unmarshal
+  "packet.newParseOptions:NewOptions.RouteInformation=ri",                               -- parsed by RouteInformation.unmarshal, which copies the prefix
+  "packet.purge:Addr{MAC}=h.NICInfo.HostAddr4.MAC",                                      -- NIC / OS data, no packet buffer involved
+  "packet.toNotification:Notification{Addr}=host.Addr",                                  -- value copy of the table entry; its MAC is the table's private copy
+  "packet.unmarshal:PrefixInformation.Prefix=net.IP(addr.AsSlice()).Mask(mask)"]         -- AsSlice and Mask allocate
 
 theorem aliasSites_tie : Gen.aliasSites = reviewed := by decide
 
+/-- the struct-valued arguments of go statements (the byte-slice ones are all evident copies) -/
+def reviewedGo : List String := [
+  "arp_spoofer.StartHunt:go spoofLoop(addr)",     -- API argument of StartHunt: callers pass Host.Addr (table copy of the MAC), never a frame address
+  "icmp_spoofer.StartHunt:go spoofLoop(addr)"]    -- idem
+
 /-- A goroutine started by a handler outlives the handler's return, i.e. the moment the packet loop reuses its
     receive buffer: every byte-slice argument of every `go` statement of the library is an evident copy
-    (`dupBytes`, `dupMAC`, `CopyBytes`, …).  Passing `clientID`, `p.CHAddr()` or `p.XId()` as they are to
+    (`dupBytes`, `dupMAC`, `CopyBytes`, …); struct values that carry byte slices are listed and reviewed.  Passing `clientID`, `p.CHAddr()` or `p.XId()` as they are to
     `go h.forceDecline(…)` puts an entry into `Gen.goAliasArgs` and breaks this theorem (the dynamic half —
     harness/c10 runs the secondary modes on one P and awaits the background senders — then shows the garbled
     DECLINE frames). -/
-theorem goAliasArgs_tie : Gen.goAliasArgs = [] := by decide
+theorem goAliasArgs_tie : Gen.goAliasArgs = reviewedGo := by decide
 
 end PV.Props.C10Tie
